@@ -142,7 +142,13 @@ class C13(Prop):
             else:
                 kinds = [marker_kind(e) for e in ents]
                 if None in kinds:
-                    out.excluded = "corpus-entity-without-marker"
+                    # an entity whose kind cannot be read from a marker key: it must still be in exactly one bucket, unchanged
+                    everything = [x for b, v in grouped.items() if b != "comments" and isinstance(v, list) for x in v]
+                    for e in ents:
+                        if everything.count(e) != ents.count(e):
+                            out.fail("entity-in-no-bucket", "flat entity %r appears %d time(s) in the grouped result (flat: %d); %r" % (
+                                e, everything.count(e), ents.count(e), ddl))
+                            break
                     return out
             present = set(kinds)
             out.nontrivial = len(present) >= 3 and (bool(present & set(OPTIONAL)) or bool(comments))
